@@ -12,6 +12,7 @@ import NemoVerif.Lemmas.LifetimeLinked
 import NemoVerif.Lemmas.LifetimeCount
 import NemoVerif.Lemmas.LifetimeV
 import NemoVerif.Lemmas.LifetimeVEq
+import NemoVerif.Lemmas.LifetimeVInv
 namespace NemoVerif.C06
 open NemoVerif.Lifetime
 
@@ -935,10 +936,9 @@ theorem abort_cyclic_repaired :
      | .ok s' => (s'.flows 0).map (·.status) == some .stopped && (s'.flows 1).map (·.status) == some .stopped
      | .error _ => false) = true := by decide
 
-/-- what is carried through the repaired recursion on EVERY hierarchy: clause (iv) `LinkInv`, clause (iii) `CountInv`,
-    the action clauses `ActInv`.  (NOT carried: the children-form clause `FlowInv.dc` — its proof for the as-is
-    recursion rests on "a call leaves its instance not listening", which a skipped re-entered instance violates until
-    the call further up the stack completes; it needs the exempt set of `DC E` to contain `busy`.) -/
+/-- the clauses that go through the repaired recursion by the generic skeleton (`Closed`): clause (iv) `LinkInv`,
+    clause (iii) `CountInv`, the action clauses `ActInv`.  (The children-form clause `FlowInv.dc` needs the `Good E`
+    induction: `lifetime_inv_step_repaired` below.) -/
 structure RepairedInv (s : State) : Prop where
   link : LinkInv s
   cnt : CountInv s
@@ -983,11 +983,8 @@ theorem repaired_inv_step (s : State) (op : IOp) (hi : RepairedInv s) : Repaired
   | noRestart u => exact henv rfl
   | frame u heads scopes => exact henv rfl
 
-/-- **T2 for the repaired interpreter, partial**: in every state the operation-sequence semantics with the repaired
-    recursion can reach — cyclic activation graphs included, where every recursive operation now completes —
-    clauses (iii), (iv) and the action clauses hold.  Full statement (not proved for the repaired recursion on cyclic
-    hierarchies): `∀ ops, LifetimeInv (runV ops)`; on acyclic hierarchies the two recursions coincide (checked on every
-    recorded call by the harness), where `lifetime_invariant` applies. -/
+/-- clauses (iii), (iv) and the action clauses along every run of the repaired machine (a corollary of
+    `lifetime_invariant_repaired` below, kept because it is proved by the generic skeleton alone) -/
 theorem lifetime_invariant_repaired_partial (ops : List IOp) : RepairedInv (runV ops) := by
   unfold runV
   suffices h : ∀ (l : List IOp) (s : State), RepairedInv s → RepairedInv (l.foldl applyOpV s) from
@@ -1052,6 +1049,62 @@ theorem lifetime_inv_step_repaired_of_acyclic (s : State) (op : IOp) (hr : ∃ r
   | label u => exact henv rfl
   | noRestart u => exact henv rfl
   | frame u heads scopes => exact henv rfl
+
+/-- one step of the REPAIRED machine preserves the FULL invariant — on EVERY hierarchy, activation cycles included
+    (the children-form clause through the repaired recursion: Lemmas/LifetimeVInv.lean, `abortFlowV_good` — the
+    `Good E` induction of the as-is recursion with one more invariant: every uid in `in_progress` is exempt or not
+    listening; a skipped re-entered instance is exempt because its own call is in progress further up the stack) -/
+theorem lifetime_inv_step_repaired (s : State) (op : IOp) (hi : LifetimeInv s) : LifetimeInv (applyOpV s op) := by
+  have hr := repaired_inv_step s op ⟨hi.link, hi.cnt, hi.act⟩
+  have henv : applyOpV s op = applyOp s op → FlowInv (applyOpV s op) := fun e => by
+    rw [e]; exact (lifetime_inv_step s op hi).flow
+  have hf : FlowInv (applyOpV s op) := by
+    cases op with
+    | abort n u d =>
+      simp only [applyOpV]
+      cases h : abortTopV n s u d with
+      | error e => exact hi.flow
+      | ok s' => exact abortTopV_flowInv hi.flow n u d s' h
+    | finish n u d =>
+      simp only [applyOpV]
+      cases h : finishFlowV n s u d with
+      | error e => exact hi.flow
+      | ok s' => exact finishFlowV_flowInv hi.flow n u d s' h
+    | endScope n u nm =>
+      simp only [applyOpV]
+      cases h : endScopeV n s u nm with
+      | error e => exact hi.flow
+      | ok s' => exact endScopeV_flowInv hi.flow n u nm s' h
+    | startChild c fid p k => exact henv rfl
+    | reactivate fid known act hasInst source pm => exact henv rfl
+    | status u st => exact henv rfl
+    | newAction u a => exact henv rfl
+    | startAction a => exact henv rfl
+    | coWin loser a b => exact henv rfl
+    | event e => exact henv rfl
+    | label u => exact henv rfl
+    | noRestart u => exact henv rfl
+    | frame u heads scopes => exact henv rfl
+  exact ⟨⟨hf, hr.act⟩, hr.link, hr.cnt⟩
+
+/-- **T2 for the repaired interpreter, at full strength**: the complete `LifetimeInv` (children form, parent-pointer
+    form, counting clause, action clauses) holds in EVERY state the operation-sequence semantics with the repaired
+    recursion can reach — no acyclicity hypothesis: with mutually activating flows every recursive operation completes
+    (`abort_repaired_fuel_sufficient`) and preserves the invariant. -/
+theorem lifetime_invariant_repaired (ops : List IOp) : LifetimeInv (runV ops) := by
+  unfold runV
+  suffices h : ∀ (l : List IOp) (s : State), LifetimeInv s → LifetimeInv (l.foldl applyOpV s) from h ops _ lifetime_inv_init
+  intro l
+  induction l with
+  | nil => intro s hs; exact hs
+  | cons op l ih => intro s hs; exact ih _ (lifetime_inv_step_repaired s op hs)
+
+/-- in every reachable state of the repaired machine every outermost `_abort_flow` / `_finish_flow` terminates with
+    fuel `2·#instances + 1` (the domain hypothesis of `abort_repaired_fuel_sufficient` is part of the invariant) -/
+theorem repaired_calls_terminate (ops : List IOp) (n u : Nat) (d : Bool) (hn : 2 * (runV ops).order.length < n) :
+    abortTopV n (runV ops) u d ≠ .error .fuel ∧ finishFlowV n (runV ops) u d ≠ .error .fuel :=
+  ⟨abort_repaired_fuel_sufficient n _ u d (lifetime_invariant_repaired ops).cnt.ord.dom hn,
+   finish_repaired_fuel_sufficient n _ u d (lifetime_invariant_repaired ops).cnt.ord.dom hn⟩
 
 /-- every state along the run (before each operation) has an acyclic `child_flow_uids` graph -/
 def AcyclicRun : State → List IOp → Prop
